@@ -1,18 +1,18 @@
 \* generated by mkcfg_rm.sh
 SPECIFICATION Spec
 CONSTANTS
-  Enc = {"e1","e2"}
-  Emb = {"m1","m2"}
+  Enc = {"e1"}
+  Emb = {"m1"}
   SelfEmb = {"ms"}
   Keys = {"k1"}
   Fns = {"d1","d2"}
-  EncKinds = {"val","nil","ref","fail","nilres","valres","failres","child","backref"}
-  EmbKinds = {"val","obj","fail","other","cycle","defer"}
+  EncKinds = {"val","nilres","fail"}
+  EmbKinds = {"obj","cycle","defer"}
   SelfKinds = {"self","fail"}
   KeyKinds = {"val","obj","fail"}
-  FnKinds = {"noop","fail","embed","more","embedat"}
-  CallOps = {"Embed","EmbedFunc","GetReference","Store","StoreDeferred","StoreEncoded","Close"}
-  MaxCalls = 2
+  FnKinds = {"noop","embed","more"}
+  CallOps = {"Embed","GetReference","Store","StoreDeferred","StoreEncoded","Close"}
+  MaxCalls = 3
   StepBound = 150
   CycleRecurses = FALSE
   ClosedUnchecked = FALSE
